@@ -1118,3 +1118,31 @@ Section Units.
     split; [exact A|]. split; [exact Hh|]. split; [exact ueqb_decides|]. reflexivity.
   Qed.
 End Units.
+
+(* ---------- sigor: a share of the wrong length is rejected ---------- *)
+
+(* The coded verifier demands that every challenge share has exactly the protocol's
+   challenge length L (it XORs L bytes of each share but hands the whole share to the
+   branch verifier, and Maurer-style branch verifiers read a challenge of any length as a
+   big-endian integer: with a weaker test an over-long share E_i = (c xor ...) || suffix lets
+   a prover without any witness pass both checks).  The model has the exact test: *)
+Theorem or_overlong_share_rejected (P : sproto) (count : nat) xs az e es zs i ei :
+  nth_error es i = Some ei -> length ei <> sp_len P ->
+  or_verify P count xs az e es zs = false.
+Proof.
+  intros Hn Hl. destruct (or_verify P count xs az e es zs) eqn:V; [|reflexivity].
+  unfold or_verify in V. rewrite !andb_true_iff in V.
+  destruct V as (((_ & Hs) & _) & _).
+  rewrite forallb_forall in Hs. apply nth_error_In in Hn. apply Hs in Hn.
+  apply Nat.eqb_eq in Hn. contradiction.
+Qed.
+
+(* and an accepted OR transcript has only shares of exactly L bytes *)
+Theorem or_accept_share_lengths (P : sproto) (count : nat) xs az e es zs :
+  or_verify P count xs az e es zs = true ->
+  length e = sp_len P /\ Forall (fun ei => length ei = sp_len P) es.
+Proof.
+  intros V. unfold or_verify in V. rewrite !andb_true_iff in V.
+  destruct V as (((( _ & He) & Hs) & _) & _). split; [apply Nat.eqb_eq; exact He|].
+  apply Forall_forall. intros x Hx. rewrite forallb_forall in Hs. apply Nat.eqb_eq. apply Hs. exact Hx.
+Qed.
